@@ -756,6 +756,46 @@ def stage_own_src_and_self(ctx: Ctx):
                     ctx.violation(f'roundtrip-struct|cut-all|{type(g.a).__name__}.{fl}', 'cutting all elements of a block and putting them back does not give the original tree', {**rec, 'after': root.src, 'diffs': d[:5]})
 
 
+DEBUG_FSTR_PROGS = ['x = f"""{a  +  \\\n b  *  c = }"""\n', "y = f'''{a  +  # c\n b  *  c = !r:>{w}}'''\n", 'z = f"{a  *  b = } {c [ 0 ] =!r}"\n', 'w = f"""{f( a ,\n   b  +  c ) = :>9}{d=}"""\n',
+                    'v = f"""{ {k :  v}  [ a \\\n ] = }"""\n']
+
+
+def stage_debug_fstring_self_replace(ctx: Ctx):
+    """deterministic: self-documenting f-string fields (`{expr = }`) whose expression is spread over lines with backslash continuations / comments and written with unusual spacing: every node
+    below the field replaced by its own copy / pure AST / source (the pure AST re-spells the text, so the Constant in front of the field must follow): the tree equals the parse of its source"""
+    import fst
+    from fst.astutil import copy_ast
+    for src in DEBUG_FSTR_PROGS:
+        try:
+            probe = fst.FST(src, 'exec')
+        except Exception as e:
+            ctx.broken.append({'kind': 'harness', 'name': 'debug-fstring-prog', 'detail': f'{src!r}: {e!r}'[:200]})
+            continue
+        paths = [probe.child_path(f, True) for f in probe.walk(True) if isinstance(f.a, ast.expr) and any(isinstance(p.a, ast.FormattedValue) for p in f.parents())
+                 and not isinstance(f.a, (ast.Starred, ast.Slice, ast.JoinedStr)) and not isinstance(f.parent.a, ast.JoinedStr)]
+        for path in paths:
+            for how in ('self_copy', 'self_ast', 'self_src'):
+                root = fst.FST(src, 'exec')
+                g = root.child_from_path(path)
+                rec = {'src': src, 'node': path, 'node_src': g.src, 'kind': how}
+                try:
+                    if how == 'self_copy':
+                        g.replace(g.copy())
+                    elif how == 'self_ast':
+                        g.replace(copy_ast(g.a))
+                    else:
+                        g.replace(g.own_src())
+                except Exception as e:
+                    if root.src != src:
+                        ctx.violation('self-replace-refusal-dirty', 'replace by self raised and changed the source', {**rec, 'error': repr(e)[:200], 'after': root.src})
+                    continue
+                ctx.tick(('debug-fstr', src, path, how), 'sweep:debug-fstring:' + how)
+                d = reparse_diffs(root)
+                if d:
+                    ctx.violation(f'value-vs-source|debug-fstring|{how}', 'after replacing a node inside a self-documenting f-string field by itself the tree differs from the parse of its source (the text in front of the field)',
+                                  {**rec, 'after': root.src, 'diffs': d[:4]})
+
+
 def run(ctx: Ctx):
     ctx.rule = ('(1) strings dense in quotes/backslashes/triple quotes/NUL/non-printables: real repr_str_multiline vs ast.literal_eval and vs the Coq model (output and reader); '
                 '(2) put_docstr/get_docstr with such texts at 7 hosts (indent 0..8, tabs, one-line bodies), rewrite and delete, + indentation model correspondence; '
@@ -777,6 +817,7 @@ def run(ctx: Ctx):
     run_guarded(ctx, stage_paren_roundtrip)
     run_guarded(ctx, stage_identifier_roundtrip)
     run_guarded(ctx, stage_own_src_and_self)
+    run_guarded(ctx, stage_debug_fstring_self_replace)
 
 
 def replay(path):
